@@ -1389,11 +1389,43 @@ fn has_return_or_try(b: &syn::Block) -> (bool, bool) {
 pub fn inline_new_helpers(block: &mut syn::Block, helpers: &std::collections::BTreeMap<String, Helper>, cx: &mut Ctx) {
     if helpers.is_empty() && !block.stmts.iter().any(|st| matches!(st, Stmt::Item(syn::Item::Fn(_)))) { return; }
     // which helper does this expression call (directly; `.await`ed for an async one)?
-    fn callee<'a>(e: &Expr, helpers: &'a std::collections::BTreeMap<String, Helper>) -> Option<(&'a Helper, Vec<Expr>)> {
+    fn turbofish(a: &syn::PathArguments) -> Vec<syn::Type> {
+        match a { syn::PathArguments::AngleBracketed(ab) => ab.args.iter().filter_map(|g| if let syn::GenericArgument::Type(t) = g { Some(t.clone()) } else { None }).collect(), _ => vec![] }
+    }
+    fn ts_mentions(ts: TokenStream, w: &str) -> bool {
+        ts.into_iter().any(|t| match t { TokenTree::Ident(id) => id == w, TokenTree::Group(g) => ts_mentions(g.stream(), w), _ => false })
+    }
+    fn ts_subst(ts: TokenStream, w: &str, with: &TokenStream) -> TokenStream {
+        ts.into_iter().flat_map(|t| -> Vec<TokenTree> { match t {
+            TokenTree::Ident(id) if id == w => with.clone().into_iter().collect(),
+            TokenTree::Group(g) => { let mut n = proc_macro2::Group::new(g.delimiter(), ts_subst(g.stream(), w, with)); n.set_span(g.span()); vec![TokenTree::Group(n)] }
+            other => vec![other] } }).collect()
+    }
+    // the helper with its own type parameters replaced by what the call names for them (`f::<X, Y>(..)`); a helper whose body names a type
+    // parameter of its own that the call leaves to inference cannot be written out at the call site
+    fn instantiate(h: &Helper, tf: &[syn::Type]) -> Option<Helper> {
+        let own: Vec<String> = h.sig.generics.params.iter().filter_map(|g| if let syn::GenericParam::Type(t) = g { Some(t.ident.to_string()) } else { None }).collect();
+        if own.is_empty() { return Some(Helper { sig: h.sig.clone(), block: h.block.clone(), receiver: h.receiver }); }
+        if tf.len() == own.len() {
+            let mut blk = h.block.to_token_stream(); let mut inputs = h.sig.inputs.to_token_stream();
+            let mut out = h.sig.output.to_token_stream();
+            for (g, t) in own.iter().zip(tf.iter()) { let with = t.to_token_stream(); blk = ts_subst(blk, g, &with); inputs = ts_subst(inputs, g, &with); out = ts_subst(out, g, &with); }
+            let mut sig = h.sig.clone(); sig.generics = Default::default();
+            sig.output = syn::parse2(out).ok()?;
+            let parsed: syn::punctuated::Punctuated<syn::FnArg, syn::Token![,]> = syn::parse::Parser::parse2(syn::punctuated::Punctuated::parse_terminated, inputs).ok()?;
+            sig.inputs = parsed;
+            return Some(Helper { sig, block: syn::parse2(blk).ok()?, receiver: h.receiver });
+        }
+        if own.iter().any(|g| ts_mentions(h.block.to_token_stream(), g)) { return None; }
+        Some(Helper { sig: h.sig.clone(), block: h.block.clone(), receiver: h.receiver })
+    }
+    fn callee(e: &Expr, helpers: &std::collections::BTreeMap<String, Helper>) -> Option<(Helper, Vec<Expr>)> {
         let (inner, awaited) = match e { Expr::Await(a) => (&*a.base, true), other => (other, false) };
+        let mut tf: Vec<syn::Type> = vec![];
         let (h, args) = match inner {
             Expr::MethodCall(m) if matches!(&*m.receiver, Expr::Path(p) if p.path.is_ident("self")) => {
                 let h = helpers.get(&m.method.to_string())?; if !h.receiver { return None; }
+                if let Some(t) = &m.turbofish { tf = t.args.iter().filter_map(|g| if let syn::GenericArgument::Type(t) = g { Some(t.clone()) } else { None }).collect(); }
                 (h, m.args.iter().cloned().collect::<Vec<_>>())
             }
             Expr::Call(c) => {
@@ -1402,6 +1434,7 @@ pub fn inline_new_helpers(block: &mut syn::Block, helpers: &std::collections::BT
                 if p.path.segments.iter().rev().skip(1).any(|s| !s.arguments.is_empty()) { return None; }   // (a turbofish on the function itself is left to inference)
                 let name = match segs.as_slice() { [n] => n.clone(), [q, n] if q == "Self" => n.clone(), _ => return None };
                 let h = helpers.get(&name)?; if h.receiver { return None; }
+                if let Some(last) = p.path.segments.last() { tf = turbofish(&last.arguments); }
                 (h, c.args.iter().cloned().collect::<Vec<_>>())
             }
             _ => return None,
@@ -1409,7 +1442,7 @@ pub fn inline_new_helpers(block: &mut syn::Block, helpers: &std::collections::BT
         if h.sig.asyncness.is_some() != awaited { return None; }
         let nparams = h.sig.inputs.iter().filter(|a| matches!(a, syn::FnArg::Typed(_))).count();
         if nparams != args.len() { return None; }
-        Some((h, args))
+        Some((instantiate(h, &tf)?, args))
     }
     fn build(h: &Helper, args: Vec<Expr>) -> Expr {
         let pats: Vec<syn::Pat> = h.sig.inputs.iter().filter_map(|a| if let syn::FnArg::Typed(pt) = a { Some((*pt.pat).clone()) } else { None }).collect();
@@ -1418,6 +1451,16 @@ pub fn inline_new_helpers(block: &mut syn::Block, helpers: &std::collections::BT
         let tys: Vec<syn::Type> = h.sig.inputs.iter().filter_map(|a| if let syn::FnArg::Typed(pt) = a { Some((*pt.ty).clone()) } else { None }).collect();
         let own_generics: Vec<String> = h.sig.generics.params.iter().filter_map(|g| if let syn::GenericParam::Type(t) = g { Some(t.ident.to_string()) } else { None }).collect();
         let typed = !tys.is_empty() && tys.iter().all(|t| { let txt = t.to_token_stream().to_string(); !txt.contains("impl ") && !txt.contains('\'') && !own_generics.iter().any(|g| txt.split(|c: char| !c.is_alphanumeric() && c != '_').any(|w| w == g)) });
+        // the helper's result type is written at the block (what its `Ok(..)`, `?` and `.into()` resolve against); a type parameter of the
+        // helper that the call leaves to inference becomes `_`
+        let ret: Option<syn::Type> = match &h.sig.output { syn::ReturnType::Type(_, t) => {
+            let mut ts = t.to_token_stream(); let under: TokenStream = quote!(_);
+            for g in &own_generics { ts = ts_subst(ts, g, &under); }
+            let txt = ts.to_string();
+            if txt.contains("impl ") || txt.contains('\'') { None } else { syn::parse2::<syn::Type>(ts).ok() } }
+            syn::ReturnType::Default => None };
+        let body: Vec<Stmt> = match &ret { Some(rt) => { let inner = &h.block.stmts; vec![parse_quote!(let hx_ret: #rt = { #(#inner)* };), Stmt::Expr(parse_quote!(hx_ret), None)] } None => h.block.stmts.clone() };
+        let stmts = &body;
         if typed && pats.len() == 1 { let p = &pats[0]; let a = &args[0]; let t = &tys[0]; return parse_quote!({ let #p: #t = #a; #(#stmts)* }); }
         if typed && pats.len() > 1 { return parse_quote!({ let (#(#pats),*): (#(#tys),*) = (#(#args),*); #(#stmts)* }); }
         if pats.is_empty() { parse_quote!({ #(#stmts)* }) }
@@ -1429,10 +1472,20 @@ pub fn inline_new_helpers(block: &mut syn::Block, helpers: &std::collections::BT
         fn visit_expr_mut(&mut self, e: &mut Expr) {
             visit_mut::visit_expr_mut(self, e);
             if self.depth > 3 { return; }
+            // `f(..)?`: an error the helper leaves with through a `?` of its own is the error this `?` passes on
+            if let Expr::Try(t) = e { if let Some((h, args)) = callee(&t.expr, self.helpers) {
+                let (ret, _) = has_return_or_try(&h.block);
+                if !ret {
+                    let mut n = build(&h, args);
+                    self.depth += 1; visit_mut::visit_expr_mut(self, &mut n); self.depth -= 1;
+                    *t.expr = n; self.fired += 1;
+                }
+                return;
+            } }
             if let Some((h, args)) = callee(e, self.helpers) {
                 let (ret, tr) = has_return_or_try(&h.block);
                 if ret || tr { return; }
-                let mut n = build(h, args);
+                let mut n = build(&h, args);
                 self.depth += 1; visit_mut::visit_expr_mut(self, &mut n); self.depth -= 1;
                 *e = n; self.fired += 1;
             }
@@ -1452,9 +1505,9 @@ pub fn inline_new_helpers(block: &mut syn::Block, helpers: &std::collections::BT
     // the tail of the function (its last expression, the operand of a final `return`, or a last statement `f(..);` of a helper without a
     // result): leaving the helper early with `return` or `?` is leaving the caller with the same value
     match block.stmts.last_mut() {
-        Some(Stmt::Expr(Expr::Return(r), _)) => { if let Some(te) = r.expr.as_mut() { if let Some((h, args)) = callee(te, helpers) { **te = build(h, args); fired += 1; } } }
-        Some(Stmt::Expr(te, None)) => { if let Some((h, args)) = callee(te, helpers) { *te = build(h, args); fired += 1; } }
-        Some(Stmt::Expr(te, Some(_))) => { if let Some((h, args)) = callee(te, helpers) { if matches!(h.sig.output, syn::ReturnType::Default) { *te = build(h, args); fired += 1; } } }
+        Some(Stmt::Expr(Expr::Return(r), _)) => { if let Some(te) = r.expr.as_mut() { if let Some((h, args)) = callee(te, helpers) { **te = build(&h, args); fired += 1; } } }
+        Some(Stmt::Expr(te, None)) => { if let Some((h, args)) = callee(te, helpers) { *te = build(&h, args); fired += 1; } }
+        Some(Stmt::Expr(te, Some(_))) => { if let Some((h, args)) = callee(te, helpers) { if matches!(h.sig.output, syn::ReturnType::Default) { *te = build(&h, args); fired += 1; } } }
         _ => {}
     }
     let mut v = V { helpers, fired: 0, depth: 0 };
